@@ -182,6 +182,7 @@ var (
 	svcType     = reflect.TypeOf(&AppSvc{})
 	renderType  = reflect.TypeOf((*flamego.Render)(nil)).Elem()
 	labelerType = reflect.TypeOf((*Labeler)(nil)).Elem()
+	namerType   = reflect.TypeOf((*Namer)(nil)).Elem()
 )
 
 func (h *SimH) body(q *Req, n int) []byte {
@@ -322,6 +323,14 @@ func (h *SimH) do(q *Req, c flamego.Context, rw http.ResponseWriter, r *http.Req
 			c.MapTo(sub, (*http.ResponseWriter)(nil))
 			q.substituted = true
 			q.Note("writer-substituted")
+		}
+	case OpSeeNamer:
+		if c != nil {
+			if v := c.Value(namerType); v.IsValid() {
+				q.Note("namer=" + v.Interface().(Namer).SvcName())
+			} else {
+				q.Note("namer=none")
+			}
 		}
 	case OpSetCL:
 		if rw != nil {
